@@ -7,7 +7,7 @@ From Hio Require Import Base.Prelude Model.TcpSock Proofs.TcpSockProofs.
 
 (* Server, plain and TLS: for every sequence of reopen (incl. failing bind) /
    serviceAccepts / serviceAxes / serviceCxes / serviceConnects (any batches of
-   accepted connections: same address again, malformed, any handshake script) /
+   accepted connections: same address again, malformed, already reset by the peer, any handshake script) /
    receive outcomes / removeIx / closeIx / close events, right after a close
    every socket ever created for the server (listen sockets and accepted
    connections) has had close() called. *)
@@ -58,11 +58,11 @@ Print Assumptions C11_client_reopen_only.
    an aborted handshake (6), a cutoff and an error removal (7); close closes the rest (0, 4, 2). *)
 Example C11_server_example :
   let evs := [Reopen false;
-              SvcConnects [(0, false, [HWant; HOk]); (1, false, [HWant])];
-              SvcAxes [(0, false, [HOk])];
+              SvcConnects [(0, AOk, [HWant; HOk]); (1, AOk, [HWant])];
+              SvcAxes [(0, AOk, [HOk])];
               SvcCxes;
-              SvcConnects [(0, false, [HOk]); (2, true, []); (3, false, [HEof])];
-              SvcCxes; Recv 0 REof; SvcConnects [(3, false, [HOk])]; Recv 3 RErr]%N in
+              SvcConnects [(0, AOk, [HOk]); (2, ABad, []); (3, AOk, [HEof])];
+              SvcCxes; Recv 0 REof; SvcConnects [(3, AOk, [HOk])]; Recv 3 RErr]%N in
   open_ids (srun true init evs) = [0; 2; 4]%N /\
   closed (srun true init (evs ++ [Close])) = [1; 5; 3; 6; 7; 0; 4; 2]%N /\
   opened (srun true init (evs ++ [Close])) = [0; 1; 2; 3; 4; 5; 6; 7]%N.
